@@ -41,6 +41,8 @@ inductive Val where
 structure Rule where
   res : String
   conc : Bool := true          -- MetricType == Concurrency (false: a QPS rule, inert here)
+  cb : Nat := 0                -- ControlBehavior (0 Reject, 1 Throttling): irrelevant for the concurrency check (both
+                               -- controllers call `performCheckingForConcurrencyMetric`), relevant for statistic reuse
   idx : Int := 0               -- ParamIndex
   key : String := ""           -- ParamKey ("" = none)
   thr : Int := 0               -- Threshold
@@ -211,6 +213,59 @@ def commit (s : St) (id : String) : St × Option Res :=
                 live := { id := p.id, res := p.res, args := p.args, atts := p.atts } :: s.live,
                 pend := s.pend.eraseP (fun p => p.id == id) }, some Res.pass)
     else ({ s with pend := s.pend.eraseP (fun p => p.id == id) }, some p.verdict)
+
+/-! ## reloading rules while entries are alive (`hotspot.LoadRules` without a preceding clear)
+
+`buildResourceTrafficShapingController`: for each new rule in order, the first old controller of the resource whose rule
+`Equals` it is kept as it is; otherwise the first old controller that `IsStatReusable` lends its statistics (here: its
+counter cache, together with the ghost eviction flag) to a new controller for the new rule; otherwise a fresh controller.
+A used old controller is removed from the candidates, so two new rules never share cells.  Outside the quantifier of C06
+(the theorems are about histories under one rule set; what a reload does to the statistics is C14): part of the executable
+model so that histories with reloads correspond. -/
+
+/-- `reflect.DeepEqual` of two `SpecificItems` maps (the lists have unique keys) -/
+def itemsEq (a b : List (Val × Int)) : Bool := a.length == b.length && a.all (fun p => b.contains p)
+
+/-- `Rule.Equals` (burst count / queueing time are fixed by the rule kind in this op language) -/
+def Rule.equals (a b : Rule) : Bool :=
+  a.res == b.res && a.conc == b.conc && a.cb == b.cb && a.pmc == b.pmc && a.idx == b.idx && a.key == b.key &&
+    a.thr == b.thr && itemsEq a.items b.items
+
+/-- `Rule.IsStatReusable` (the duration is fixed by the metric type in this op language) -/
+def Rule.statReusable (a b : Rule) : Bool :=
+  a.res == b.res && a.cb == b.cb && a.pmc == b.pmc && a.conc == b.conc
+
+/-- `calculateReuseIndexFor`: (index of the first equal old rule, index of the first stat-reusable one before it) -/
+def findReuse {α : Type} (ruleOf : α → Rule) (r : Rule) : List α → Nat → Option Nat → Option Nat × Option Nat
+  | [], _, ru => (none, ru)
+  | o :: os, i, ru =>
+    if (ruleOf o).equals r then (some i, ru)
+    else if (ruleOf o).statReusable r && ru.isNone then findReuse ruleOf r os (i + 1) (some i)
+    else findReuse ruleOf r os (i + 1) ru
+
+/-- `buildResourceTrafficShapingController` over the flat controller list (equality and reusability both require the
+    same resource, so scanning the flat list is scanning the resource's own list) -/
+def reuseBuild {α : Type} (ruleOf : α → Rule) (mk : Rule → Option α → α) : List Rule → List α → List α
+  | [], _ => []
+  | r :: rs, old =>
+    match findReuse ruleOf r old 0 none with
+    | (some i, _) =>
+      match old[i]? with
+      | some o => o :: reuseBuild ruleOf mk rs (old.eraseIdx i)
+      | none => mk r none :: reuseBuild ruleOf mk rs old
+    | (none, some i) =>
+      match old[i]? with
+      | some o => mk r (some o) :: reuseBuild ruleOf mk rs (old.eraseIdx i)
+      | none => mk r none :: reuseBuild ruleOf mk rs old
+    | (none, none) => mk r none :: reuseBuild ruleOf mk rs old
+
+def Tc.inherit (r : Rule) : Option Tc → Tc
+  | some t => { t with rule := r }
+  | none => { rule := r }
+
+/-- `hotspot.LoadRules(rules)` on top of the controllers in force -/
+def reload (s : St) (rules : List Rule) : St :=
+  { s with tcs := reuseBuild (fun t => t.rule) Tc.inherit (rules.filter Rule.valid) s.tcs }
 
 /-- the op language of the correspondence driver, as data (what the theorems quantify over) -/
 inductive Op where
